@@ -103,6 +103,55 @@ fn visit<'a>(
             }
             Ok(())
         }
-        Type::Name(ident) => visit_name(types, visited, ident.name),
+        Type::Name(ident) => {
+            visit_name(types, visited, ident.name)?;
+
+            // The type arguments end up in the fields of the type, so a
+            // type is also recursive if it appears in one of its own
+            // arguments, e.g. `record A { x: A? }`. Only arguments for
+            // type parameters that the definition really uses count.
+            let (params, used): (&[Type], Vec<&Type>) =
+                match &types[&ident.name] {
+                    TypeDefinition::Enum(name, variants) => (
+                        &name.arguments,
+                        variants.iter().flat_map(|v| &v.fields).collect(),
+                    ),
+                    TypeDefinition::Record(name, fields) => (
+                        &name.arguments,
+                        fields.iter().map(|(_, ty)| ty).collect(),
+                    ),
+                    TypeDefinition::List(name) => {
+                        (&name.arguments, name.arguments.iter().collect())
+                    }
+                    TypeDefinition::Runtime(_, _)
+                    | TypeDefinition::Primitive(_) => (&[], Vec::new()),
+                };
+
+            for (param, arg) in params.iter().zip(&ident.arguments) {
+                if used.iter().any(|ty| mentions(ty, param)) {
+                    visit(types, visited, arg)?;
+                }
+            }
+            Ok(())
+        }
+    }
+}
+
+/// Returns whether the type parameter `param` occurs anywhere in `ty`
+fn mentions(ty: &Type, param: &Type) -> bool {
+    if ty == param {
+        return true;
+    }
+    match ty {
+        Type::Record(fields) | Type::RecordVar(_, fields) => {
+            fields.iter().any(|(_, ty)| mentions(ty, param))
+        }
+        Type::Name(name) => {
+            name.arguments.iter().any(|ty| mentions(ty, param))
+        }
+        Type::Function(args, ret) => {
+            args.iter().any(|ty| mentions(ty, param)) || mentions(ret, param)
+        }
+        _ => false,
     }
 }
